@@ -256,6 +256,10 @@ def attributes(tokeniser: Any) -> list[Route]:
         # Copy template settings and update with new CIDR
         settings = copy(template_settings)
         settings.cidr = CIDR.create_cidr(ipmask.pack_ip(), ipmask.mask)
+        # each prefix is of the family it is written in (the template was given the one of the last prefix)
+        settings.afi = IP.toafi(ipmask.top())
+        if nlri_class is INET:
+            settings.safi = IP.tosafi(ipmask.top())
         settings.action = Action.UNSET
 
         # Create immutable NLRI from settings
